@@ -172,7 +172,7 @@ func init() {
 	register("c05", func(args []string) int {
 		f := parseFlags("c05", args)
 		rep := newReport("C05", f)
-		rep.Rule = "random producer/consumer histories through the public Writer / Reader / ACK API on the simulated disk: events of 1 byte .. 6 pages with every size within +-4 of page / header boundaries, written in 1..40 chunks, explicit flushes (also in the middle of an event), implicit flushes by the write buffer (0 .. 16 pages), reader Begin / Next / partial Read / skip / Done, ACKs, reopen; oracle = slice of events (sizes, bytes, order, nothing delivered twice or skipped; final drain); K1: at the end of every history the extracted model reader (parse_from, and the reader state machine rd_run driven by a random sequence of Next / partial Read calls incl. reads stopping 1-5 bytes before a page end) on the real page chain vs. the real Reader on the same calls; page sizes 1 KiB / 4 KiB. Non-trivial: history with >= 1 event read back; distinct by op statistics."
+		rep.Rule = "directed: writer restart while an event is unfinished that was already flushed in part; random producer/consumer histories through the public Writer / Reader / ACK API on the simulated disk: events of 1 byte .. 6 pages with every size within +-4 of page / header boundaries, written in 1..40 chunks, explicit flushes (also in the middle of an event), implicit flushes by the write buffer (0 .. 16 pages), reader Begin / Next / partial Read / skip / Done, ACKs, reopen; oracle = slice of events (sizes, bytes, order, nothing delivered twice or skipped; final drain); K1: at the end of every history the extracted model reader (parse_from, and the reader state machine rd_run driven by a random sequence of Next / partial Read calls incl. reads stopping 1-5 bytes before a page end) on the real page chain vs. the real Reader on the same calls; page sizes 1 KiB / 4 KiB. Non-trivial: history with >= 1 event read back; distinct by op statistics."
 		if f.replay != "" {
 			rp, err := loadPQReplay(f.replay)
 			if err != nil {
@@ -197,6 +197,35 @@ func init() {
 			n = f.n
 		}
 		cfgs := pqConfigs()
+		// directed: the writer goes away (Close / reopen) while an event is unfinished that was already flushed in
+		// part - with its header in the same page as finished events, in a page of its own, spilled over 1-3 pages -
+		// and a new writer appends: everything finished before and after must be delivered
+		for i := 0; i < 16; i++ {
+			cfg := cfgs[i%len(cfgs)]
+			ps := int(cfg.PageSize)
+			var ops []pqengine.Op
+			first := []int{100, ps - 40, ps/2 + 3, 5}[i%4]
+			ops = append(ops, pqengine.Op{Kind: "event", N: first, Seed: 1}, pqengine.Op{Kind: "event", N: 33, Seed: 2})
+			if i%2 == 0 {
+				ops = append(ops, pqengine.Op{Kind: "flush"})
+			}
+			part := []int{ps + 17, 3 * ps, 12, 2*ps - 29}[(i/4)%4]
+			ops = append(ops, pqengine.Op{Kind: "write", N: part, Seed: 3}, pqengine.Op{Kind: "flush"})
+			if i%3 == 0 {
+				ops = append(ops, pqengine.Op{Kind: "write", N: ps / 3, Seed: 3}, pqengine.Op{Kind: "flush"})
+			}
+			ops = append(ops, pqengine.Op{Kind: "reopen"},
+				pqengine.Op{Kind: "event", N: 50, Seed: 4}, pqengine.Op{Kind: "event", N: ps + 7, Seed: 5}, pqengine.Op{Kind: "event", N: 3, Seed: 6},
+				pqengine.Op{Kind: "flush"}, pqengine.Op{Kind: "reopen"}, pqengine.Op{Kind: "event", N: 9, Seed: 7}, pqengine.Op{Kind: "flush"})
+			done := false
+			runPQHistory(rep, cfg, ops, int64(900+i), "", nil, func(e *pqengine.Engine) {
+				if !done {
+					done = true
+					pqStreamK1(rep, m, e, "end of directed history")
+				}
+			})
+			rep.count("scenario:writer-restart-with-a-partly-flushed-unfinished-event", 1)
+		}
 		for i := 0; i < n; i++ {
 			hseed := r.Int63()
 			hr := rand.New(rand.NewSource(hseed))
